@@ -375,12 +375,16 @@ class Inliner:
             for x in ast.walk(s):
                 if hasattr(x, "lineno"):
                     x._orig_loc = (h.module.relpath, x.lineno)
+        placeholder = f"__result{tag}" if res is not None else None  # keeps the caller's target out of the helper's renames
         try:
-            body = structure(body, res)
+            body = structure(body, placeholder)
         except NotStructurable:
             return None
         sub = _Subst(exprs, renames)
         body = [sub.visit(s) for s in body]
+        if placeholder is not None:
+            back = _Subst({}, {placeholder: res})
+            body = [back.visit(s) for s in body]
         return prelude + body
 
     def expr_form(self, h: FuncInfo) -> Optional[ast.expr]:
